@@ -376,6 +376,18 @@ def sc_gap_contract(M, n, gap):
 
 
 @scenario
+def sc_gap_zero_at_full_knowledge(M, n, computer, gap):
+    """Once every value is revealed (and bounds recomputed) every offered gap function is exactly zero."""
+    C = M.mod("coalitions").Coalition
+    v = declare_game(M, n)
+    assume_class(M, n, v, computer)
+    g, k = make_incomplete(M, n, computer, v, known={c: True for c in range(1 << n)})
+    g.compute_bounds()
+    r = M.val(gap_function(M, gap)(g))
+    M.check(f"{gap}.zero_at_full_knowledge", r == 0)
+
+
+@scenario
 def lem_gap_monotone(M, n, gap):
     """0 <= w' <= w pointwise  =>  gap(w') <= gap(w);  gap(w) >= 0;  gap(0) = 0 (spec level)."""
     N = 1 << n
@@ -441,6 +453,27 @@ def sc_shapley(M, n, canary=False):
     M.check("efficiency", M.sum_(phis) == v[(1 << n) - 1])
     if canary:
         M.check("canary.equal_split", phis[0] == v[(1 << n) - 1] / M.const(n), canary=True)
+
+
+@scenario
+def sc_shapley_interleaved(M, n):
+    """compute_shapley_value is a generator: consuming two of them in lock step (zip), or calling the single-player
+    entry point for ANOTHER game between two next() calls, must not change what either of them yields."""
+    sh = M.mod("shapley")
+    v = declare_game(M, n, "v")
+    w = declare_game(M, n, "w")
+    gv, gw = complete_game(M, n, v), complete_game(M, n, w)
+    pairs = list(zip(sh.compute_shapley_value(gv), sh.compute_shapley_value(gw)))
+    M.check("zip.length", len(pairs) == n)
+    for i, (a, b) in enumerate(pairs):
+        M.check(f"zip.first[{i}]", M.val(a) == SH.shapley_by_orderings(M, n, v, i))
+        M.check(f"zip.second[{i}]", M.val(b) == SH.shapley_by_orderings(M, n, w, i))
+    it = sh.compute_shapley_value(gv)
+    for i in range(n):
+        a = M.val(next(it))
+        other = M.val(sh.compute_shapley_value_for_player((i + 1) % n, gw))
+        M.check(f"suspended.first[{i}]", a == SH.shapley_by_orderings(M, n, v, i))
+        M.check(f"suspended.other[{i}]", other == SH.shapley_by_orderings(M, n, w, (i + 1) % n))
 
 
 def _permute_coalition(c, a, b):
@@ -706,3 +739,100 @@ def sc_sam_final_antitone(M, n):
     for c in range(1 << n):
         M.check(f"final_pass.antitone[{c}]", u2[c] <= u1[c])
         M.check(f"final_pass.keeps_lower[{c}]", M.and_(l1[c] == lows["one"][c], l2[c] == lows["two"][c]))
+
+
+@scenario
+def sc_sam_stale_relational(M, n, mode="iter"):
+    """C08 for the SAM computer and EVERY repetition count, as a relational statement over the cut loop: two runs on
+    pre-states with equal knowledge and independent stale rows (a) take the same control decisions (enter another
+    iteration / leave the loop), (b) after an arbitrary iteration that starts from EQUAL lower tables (i >= 1) or from
+    the two different entry states (i = 0) have equal lower tables, (c) after the loop end in equal tables.  By
+    induction the result is a function of the knowledge alone."""
+    if not M.symbolic:
+        return
+    from pyvc.core import StopPath
+    bounds = M.mod("bounds")
+    v = declare_game(M, n)
+    assume_class(M, n, v, "sam_apx")
+    reps = M.int("reps", lo=0)
+    mini = set(minimal(n))
+    gA, k = make_incomplete(M, n, None, v, tag="a")
+    gB, _ = make_incomplete(M, n, None, v, tag="b", known=k)
+    rt = M.pkg.cut_runtime
+    rt.mode = mode
+
+    def havoc(loc, why):
+        gg = loc["game"]
+        for c in range(1 << n):
+            if c not in mini:
+                gg._values[c, 1] = M.ite(k[c], v[c], M.real(f"rel.{why}.lo{c}"))      # the SAME symbols in both runs
+
+    rt.spec["sam.outer"] = {"inv": (lambda loc, i: M.and_()), "havoc": havoc}
+    ends, tabs = [], []
+    for g in (gA, gB):
+        try:
+            getattr(bounds, SAM_FN)(g, reps)
+            ends.append("left_the_loop")
+        except StopPath:
+            ends.append("next_iteration")
+        tabs.append(table(M, g, n))
+    M.check("same_control_decision", ends[0] == ends[1], decisions=str(ends))
+    (ka, la, ua), (kb, lb, ub) = tabs
+    for c in range(1 << n):
+        M.check(f"rel.lower[{c}]", la[c] == lb[c])
+        if ends == ["left_the_loop", "left_the_loop"]:
+            M.check(f"rel.upper[{c}]", ua[c] == ub[c])
+            M.check(f"rel.known[{c}]", M.iff(ka[c], kb[c]))
+
+
+@scenario
+def sc_sam_shrinks_relational(M, n, s, mode="iter"):
+    """C07 for the SAM computer and EVERY repetition count: run A on knowledge K (s unknown), run B on K + {s -> v*(s)};
+    relational invariant over the cut loop  Inv(i >= 1) := lowerA <= lowerB <= v*  pointwise.  Obligations: same control
+    decisions; the invariant is established by iteration 0 from arbitrary stale rows and preserved by every later
+    iteration; after the loop lowerA <= lowerB and upperB <= upperA (no interval widens)."""
+    if not M.symbolic:
+        return
+    from pyvc.core import StopPath
+    bounds = M.mod("bounds")
+    v = declare_game(M, n)
+    assume_class(M, n, v, "sam_apx")
+    reps = M.int("reps", lo=0)
+    mini = set(minimal(n))
+    gA, k = make_incomplete(M, n, None, v, tag="a")
+    M.assume(M.not_(k[s]))
+    kB = dict(k)
+    kB[s] = True
+    gB, _ = make_incomplete(M, n, None, v, tag="b", known=kB)
+    rt = M.pkg.cut_runtime
+    rt.mode = mode
+    lows = {}
+
+    def mk(tag, kk):
+        def havoc(loc, why):
+            gg = loc["game"]
+            for c in range(1 << n):
+                if c not in mini:
+                    gg._values[c, 1] = M.ite(kk[c], v[c], M.real(f"rel{tag}.{why}.lo{c}"))
+            lows[tag] = [gg._values[c, 1] for c in range(1 << n)]
+            if tag == "B" and "A" in lows:
+                for c in range(1 << n):
+                    M.assume(M.and_(lows["A"][c] <= lows["B"][c], lows["B"][c] <= v[c]))
+        return havoc
+
+    ends, tabs = [], []
+    for tag, g, kk in (("A", gA, k), ("B", gB, kB)):
+        rt.spec["sam.outer"] = {"inv": (lambda loc, i: M.and_()), "havoc": mk(tag, kk)}
+        try:
+            getattr(bounds, SAM_FN)(g, reps)
+            ends.append("left_the_loop")
+        except StopPath:
+            ends.append("next_iteration")
+        tabs.append(table(M, g, n))
+    M.check("same_control_decision", ends[0] == ends[1], decisions=str(ends))
+    (_, la, ua), (_, lb, ub) = tabs
+    for c in range(1 << n):
+        M.check(f"rel.lowerA_le_lowerB[{c}]", la[c] <= lb[c])
+        M.check(f"rel.lowerB_sound[{c}]", lb[c] <= v[c])
+        if ends == ["left_the_loop", "left_the_loop"]:
+            M.check(f"rel.upperB_le_upperA[{c}]", ub[c] <= ua[c])
